@@ -6,6 +6,7 @@ import Lattigo.Model.EncoderC
   CKKS half of the C07 line protocol (first token after the property id is `ckks`):
     ckks encslot <N> <ci> <qs> <P> <scale dy> <slots> <re sd> <im sd>   ⇒ centred coefficients (N ints)
     ckks enccoef <N> <qs> <P> <scale dy> <v0;v1;…  (sd each)>            ⇒ centred coefficients (N ints)
+    ckks fixedpoint <P> <scale dy> <x sd> <qs>                          ⇒ residues mod q_i (P = 53: float64 path)
     ckks encpoly <N> <ci> <qs> <slots> <re ints> <im ints>               ⇒ centred coefficients (N ints)
     ckks rotgroup <m>                                                   ⇒ table
     ckks bitrev <bits> <i>                                              ⇒ index
@@ -36,6 +37,11 @@ def handle (toks : List String) : String :=
     match parseNat? n, C06.parseBool? ci, parseVec? qs, parseNat? slots, parseIVec? re, parseIVec? im with
     | some n, some ci, some qs, some slots, some re, some im => center qs (encodePoly n ci slots re im)
     | _, _, _, _, _, _ => badOp
+  | ["ckks", "fixedpoint", p, sc, x, qs] =>
+    match parseNat? p, C06.parseDy? sc, C06.parseSD? x, parseVec? qs with
+    | some p, some sc, some x, some qs =>
+      showVec (if p == 53 then toRNS (singleFloat64 x sc) qs else fixedPointRNS p x sc qs)
+    | _, _, _, _ => badOp
   | ["ckks", "rotgroup", m] =>
     match parseNat? m with
     | some m => showVec (rotGroup m)
